@@ -30,6 +30,12 @@ let rec item_ s : M.ritem =
 let content_ s : M.content =
   match list s with
   | [Atom "parsed"; its] -> M.Parsed (list_ item_ its)
+  | [Atom "source"; pro; its] ->
+      let pro_ x = match atom x with
+        | "bom" -> M.PBom | "shebang" -> M.PShebang | "inner" -> M.PInnerAttr | "docinner" -> M.PDocInner
+        | "blank" -> M.PBlank | "comment" -> M.PComment | "frontmatter" -> M.PFrontmatter
+        | _ -> failwith "c03: bad prologue piece" in
+      M.Source (list_ pro_ pro, list_ item_ its)
   | [Atom "unparsable"] -> M.Unparsable
   | [Atom "notutf8"] -> M.NotUtf8
   | _ -> failwith "c03: bad content"
@@ -71,15 +77,18 @@ let () =
               of_pairs (M.c03_spec l);
               of_list (of_list of_str) (M.c03_spec_files l)]
     | _ -> failwith "c03-model: bad case");
-  (* (root ((node ...) ...)) -> ((layout_ok model-pairs spec-pairs) ...): one entry per run of a
-     build-script history, starting from an empty output directory *)
+  (* (root ((cli? forced? (node ...)) ...)) -> ((layout_ok model-pairs spec-pairs in-class-C03-3) ...):
+     one entry per run of a history, starting from an empty output directory *)
   Registry.register "history" (fun s ->
     match list s with
-    | [root; trees] ->
+    | [root; steps] ->
         let root = str_ root in
-        let ls = list_ (list_ node_) trees in
-        let ms = M.c03_history root ls in
-        List (List.map2 (fun l m -> List [of_bool (M.c03_layout_ok l); of_pairs m; of_pairs (M.c03_spec l)]) ls ms)
+        let steps = list_ (fun st -> match list st with
+          | [cli; force; tree] -> ((bool_ cli, bool_ force), list_ node_ tree)
+          | _ -> failwith "c03-history: bad step") steps in
+        let ms = M.c03_history root steps in
+        List (List.map2 (fun (_, l) (m, stale) ->
+                List [of_bool (M.c03_layout_ok l); of_pairs m; of_pairs (M.c03_spec l); of_bool stale]) steps ms)
     | _ -> failwith "c03-history: bad case");
   (* (expected-pairs model-pairs? commands.ts-text) -> (parsed? wrappers oracle_ok corr) ;
      text "" stands for a file that was not written *)
